@@ -147,10 +147,15 @@ def _compiler_input(kind, key):
         return {"glyphs": g, "order": list(g), "kerning": [("a", "b", -30 - d)], "features": fea,
                 "info": {"styleName": "M%d" % i}}
     if kind == "static":
-        return B.build_font(master(0, key))
+        sp = master(0, key)
+        if key == "B":
+            sp["lib"] = {"public.skipExportGlyphs": ["c"]}
+        return B.build_font(sp)
+    # source B carries its own designspace-level settings (a skip list): they are B's, not the compiler's
     return B.build_designspace([{"name": "Weight", "tag": "wght", "min": 0, "default": 0, "max": 1000}],
                                [{"spec": master(0, key), "location": {"Weight": 0}, "name": "m0"},
-                                {"spec": master(1, key), "location": {"Weight": 1000}, "name": "m1"}])
+                                {"spec": master(1, key), "location": {"Weight": 1000}, "name": "m1"}],
+                               lib={"public.skipExportGlyphs": ["c"]} if key == "B" else None)
 
 
 def _compiler_digest(kind, result):
